@@ -655,8 +655,33 @@ def cli_registrations(repo, m):
                                 combos = [{**c0, **r_} for c0 in combos for r_ in rows]
                         q_ = parents.get(q_)
                     for mp_ in combos:
-                        calls.append(Subst(mp_).visit(_copy.deepcopy(n_)) if mp_ else n_)
+                        cn_ = Subst(mp_).visit(_copy.deepcopy(n_)) if mp_ else _copy.copy(n_)
+                        cn_._caller = g
+                        calls.append(cn_)
         return calls
+
+    def through_callers(call, depth=0):
+        """The call as seen from the outermost caller: when it sits in a helper that is itself called with arguments, the helper's
+        parameters in the call's arguments are replaced by those arguments (one variant per call of that helper)."""
+        import copy as _copy
+        g = getattr(call, "_caller", None)
+        if g is None or g.name == "add_arguments" or depth >= 3:
+            return [call]
+        gp = g.params()
+        names = {x.id for a_ in list(call.args) + [k.value for k in call.keywords] for x in ast.walk(a_) if isinstance(x, ast.Name)}
+        if not (names & set(gp)):
+            return [call]
+        outer = helper_calls(g)
+        if not outer:
+            return [call]
+        res = []
+        for oc in outer:
+            mp_ = {p_: a_ for p_, a_ in zip(gp, oc.args)}
+            mp_.update({k.arg: k.value for k in oc.keywords if k.arg})
+            c2 = Subst(mp_).visit(_copy.deepcopy(call))
+            c2._caller = getattr(oc, "_caller", None)
+            res.extend(through_callers(c2, depth + 1))
+        return res
 
     for f in m.functions.values():
         partials = {}  # local name -> (pos ASTs, kw ASTs) bound by functools.partial(<x>.add_argument, ...)
@@ -724,7 +749,7 @@ def cli_registrations(repo, m):
             continue
         params = f.params()
         uses_params = any(isinstance(x, ast.Name) and x.id in params[1:] for _, pos, kw, _r in own for t in pos + list(kw.values()) for x in ast.walk(t))
-        calls = helper_calls(f) if (f.name != "add_arguments") else []
+        calls = [c2 for c1 in (helper_calls(f) if (f.name != "add_arguments") else []) for c2 in through_callers(c1)]
         if calls and (uses_params or True):
             for call in calls:
                 mapping = {}
